@@ -4,6 +4,7 @@ import GldapModel.Gldap.ControlEncode
 import GldapModel.Gldap.Response
 import GldapModel.Gldap.Mux
 import GldapModel.Directory.Bind
+import GldapModel.Runtime.Writer
 /-! `gmodel`: one line in, one line out. The Go harness feeds the same cases to the real
     gldap and to this driver and diffs the two output streams. -/
 open Ber Gldap Driver
@@ -137,6 +138,59 @@ def parseEntry (s : String) : Option Directory.Entry :=
 
 def parseEntries (s : String) : Option (List Directory.Entry) := (splitNE s "|").mapM parseEntry
 
+/-- one instrumentation event `label:conn:req` -/
+structure Ev where
+  label : String
+  conn : Nat
+  req : Nat
+
+def parseEv (s : String) : Option Ev :=
+  match s.splitOn ":" with
+  | [l, c, r] => do pure ⟨l, ← c.toNat?, ← r.toNat?⟩
+  | _ => none
+
+def wopOfLabel : String → Option Writer.WOp
+  | "w.locked" => some .lock
+  | "w.written" => some .write
+  | "w.flushed" => some .flush
+  | "w.unlock" => some .unlock
+  | _ => none
+
+/-- replay the observed Write events of ONE connection through the writer model under the
+    extracted micro-operation order: every event must be the operation the model's writer is
+    at, and must be enabled (mutual exclusion). An aborted call (unlock before the end of the
+    sequence: a failed write) ends the replay of that connection. -/
+def replayWriter (seq : List Writer.WOp) (evs : List Ev) : String := Id.run do
+  let counts := fun (w : Nat) => (evs.filter fun e => e.req == w && e.label == "w.locked").length
+  let frames : Nat → List Bytes := fun w => List.replicate (counts w) [0]
+  let mut s := Writer.init frames
+  let mut i := 0
+  for e in evs do
+    match wopOfLabel e.label with
+    | none => pure ()
+    | some op =>
+      let w := e.req
+      match seq[s.pc w]? with
+      | none => return s!"reject@{i} no-op-at-pc"
+      | some cur =>
+        if cur != op then
+          if op == .unlock then return "accept" else return s!"reject@{i} event {e.label} but model is at another operation"
+        let halves := if op == .write || op == .flush then 2 else 1
+        for _ in [0:halves] do
+          match Writer.step seq s w 0 with
+          | none => return s!"reject@{i} {e.label} not enabled (mutex held by another writer)"
+          | some s' => s := s'
+    i := i + 1
+  return "accept"
+
+def doTraceWriter (evs : List Ev) : String :=
+  if evs.isEmpty then "no-trace" else
+  let conns := (evs.map (·.conn)).eraseDups
+  let results := conns.map fun c => replayWriter Generated.writeSeq (evs.filter (·.conn == c))
+  match results.find? (· ≠ "accept") with
+  | some r => r
+  | none => "accept"
+
 def handle (line : String) : String :=
   match (line.splitOn " ").filter (· ≠ "") with
   | ["ber", h] => match unhex h with
@@ -183,6 +237,9 @@ def handle (line : String) : String :=
        | some a, some us => s!"code={Directory.handleBind us a dn pw}"
        | _, _ => "bad-input")
     | _, _, _, _ => "bad-input"
+  | "trace" :: "writer" :: evs => match evs.mapM parseEv with
+    | some es => doTraceWriter es
+    | none => "bad-input"
   | ["behera", g, e, c] =>
     match parseOptNat g, parseOptNat e, parseOptNat c with
     | some g, some e, some c => renderOutcome renderControl (newBehera Generated.beheraErrRange g e c)
